@@ -92,33 +92,11 @@ BinFails(r) ==
     ELSE ParsedFails(r.got, BinDecay(r.orig, r.root))
 
 (* ---- whole-file export --------------------------------------------------- *)
-\* names as code point sequences: Python sorts by code point
-RECURSIVE LexLess(_, _, _)
-LexLess(a, b, k) == IF k > Len(a) THEN k <= Len(b)
-                    ELSE IF k > Len(b) THEN FALSE
-                    ELSE IF a[k] # b[k] THEN a[k] < b[k] ELSE LexLess(a, b, k + 1)
-\* order[k] = [cls, cp, bases, batch]: batch numbers are implied: an entity belongs to the first
-\* batch in which all its bases have been written
+\* every definition is written exactly once (in which order, and with what between them, is
+\* the writer's choice: that the file can be read back is checked by reading it)
 OrderFails(r) ==
-    LET o == r.order
-        n == Len(o)
-        pos == [c \in {o[k].cls : k \in 1..n} |-> CHOOSE k \in 1..n : o[k].cls = c]
-        RECURSIVE Batch(_)
-        Batch(k) == IF o[k].bases = <<>> THEN 1
-                    ELSE 1 + (LET bs == {Batch(pos[o[k].bases[m]]) : m \in 1..Len(o[k].bases)}
-                              IN CHOOSE x \in bs : \A y \in bs : y <= x)
-        bat == [k \in 1..n |-> Batch(k)]
-    IN  UNION {
-        IF Cardinality({o[k].cls : k \in 1..n}) # n \/ n # r.count THEN {F("file.order.complete", r.count)} ELSE {},
-        IF \E k \in 1..n : \E m \in 1..Len(o[k].bases) : pos[o[k].bases[m]] >= k
-            THEN {F("file.order.bases_first", TRUE)} ELSE {},
-        IF \E k \in 1..(n - 1) : bat[k] > bat[k + 1] \/ (bat[k] = bat[k + 1] /\ ~LexLess(o[k].cp, o[k + 1].cp, 1))
-            THEN {F("file.order.sorted", CHOOSE k \in 1..(n - 1) :
-                        bat[k] > bat[k + 1] \/ (bat[k] = bat[k + 1] /\ ~LexLess(o[k].cp, o[k + 1].cp, 1)))} ELSE {},
-        \* the file is the header followed by "\n" + entity text for every entity, nothing else
-        LET RECURSIVE Sum(_)
-            Sum(k) == IF k = 0 THEN 0 ELSE o[k].len + 1 + Sum(k - 1)
-        IN IF r.header + Sum(n) # r.total THEN {F("file.length", r.header + Sum(n))} ELSE {}}
+    LET o == r.order  n == Len(o) IN
+    IF Cardinality({o[k].cls : k \in 1..n}) # n \/ n # r.count THEN {F("file.order.complete", r.count)} ELSE {}
 \* text1 -> parse -> text2 -> parse -> text3.  mode "default": bases are resolved while
 \* reading (FGD.parse's default); mode "names": eval_bases=False, bases stay class names.
 \* Whatever the mode: the second export must be the first, it must be readable the default
